@@ -60,6 +60,7 @@ K_LIMIT_ISSPENT = 'C20/error-limit/isspent-returns-false'
 K_LIMIT_FEE_CACHED = 'C20/error-limit/estimatefee-network-default-served-from-cache'
 K_EMPTY_NOLIMIT = 'C20/error-limit/not-evaluated-after-empty-response'
 K_CONF_NEG = 'C20/cache/confirmations-computed-from-expired-blockcount'
+K_PARTIAL_HISTORY = 'C20/cache/address-balance-summed-over-partial-history'
 
 METHODS = ['blockcount', 'getbalance', 'getutxos', 'gettransaction', 'gettransactions', 'getrawtransaction',
            'sendrawtransaction', 'estimatefee', 'getblock', 'getrawblock', 'mempool', 'isspent', 'getinfo',
@@ -742,6 +743,11 @@ def judge_call(callrec, col, case):
                     part = {s_ + v for s_ in part for v in _stored_balance_candidates(a, name)}
                 if lim and type(ret) in (int, float) and any(_same(ret, s_) for s_ in part):
                     key = K_LIMIT_BALANCE
+                elif not lim and len(spec['addrs_real']) == 1 and spec['addrs_real'][0] not in asked:
+                    nm = [n for n, s_ in c.addr.items() if s_ == spec['addrs_real'][0]][0]
+                    ch = _cached_history_sum(nm)
+                    if ch is not None and not ch[1] and _same(ret, ch[0]):
+                        key = K_PARTIAL_HISTORY
             elif len(execs) == 1 and len(execs[0]['args'][0]) == 1 and fresh[0]:
                 W.reg_bal.setdefault(execs[0]['args'][0][0], []).extend(e['value'] for e in fresh[0])
         elif m == 'isspent':
@@ -849,6 +855,30 @@ def _stored_balance_candidates(addr, name):
     return W.c.balance_candidates(name) | set(W.reg_bal.get(addr, [])) | {s_ for s_, _ in W.reg_whole.get(addr, [])}
 
 
+def _cached_history_sum(name):
+    """Independent look (sqlite3, read only) at which chain transactions of the address are in the run's cache db.
+    -> (sum of outputs to the address minus inputs from it over exactly those transactions, is that set a prefix of
+    the confirmed history?) or None."""
+    import sqlite3
+    W = _state['W']
+    c = W.c
+    try:
+        con = sqlite3.connect('file:%s?mode=ro' % _state['dbp'], uri=True)
+        rows = con.execute("select distinct txid from cache_transactions_node where address=?", (c.addr[name],)).fetchall()
+        con.close()
+    except Exception:
+        return None
+    cached = {c.by_txid.get(bytes(r[0]).hex()) for r in rows} - {None}
+    hist = c.txs_of(name, True)
+    bal = 0
+    for m in hist:
+        if m in cached:
+            t = c.txs[m]
+            bal += sum(v for o, v in t['outs'] if o == name) - sum(i['value'] for i in t['ins'] if i['owner'] == name)
+    is_prefix = [m for m in hist if m in cached] == hist[:len(cached & set(hist))]
+    return bal, is_prefix
+
+
 def check_address_records(callrec, col, case):
     """Provenance of every number in the stored address records (read through Service.getcacheaddressinfo)."""
     W = _state['W']
@@ -870,11 +900,13 @@ def check_address_records(callrec, col, case):
         seen_any = any(c.txs[n]['txid'] in W.reg_tx for n in c.txs_of(name))
         bal = info.get('balance')
         if bal is not None and not (bal == 0 or any(_same(bal, v) for v in _stored_balance_candidates(addr, name))):
-            col.violation(None, 'stored balance %s of address %s after %s: no provider reported it for the address and it is not '
+            ch = _cached_history_sum(name)
+            key = K_PARTIAL_HISTORY if (ch is not None and not ch[1] and _same(bal, ch[0])) else None
+            col.violation(key, 'stored balance %s of address %s after %s: no provider reported it for the address and it is not '
                           'derivable from the history providers gave' % (_short(bal), name, callrec['m']),
                           dict(case, failing_call=callrec['index']), info, sorted(_stored_balance_candidates(addr, name))[:12])
         nu = info.get('n_utxos')
-        ok_n = c.utxo_count_candidates(name, allow_empty=not seen_any) | {n_ for _, n_ in W.reg_whole.get(addr, [])}
+        ok_n = c.utxo_count_candidates(name, allow_empty=(not seen_any) or info.get('n_txs') == 0) | {n_ for _, n_ in W.reg_whole.get(addr, [])}
         if nu is not None and nu not in ok_n:
             col.violation(None, 'stored utxo count %s of address %s after %s: the address never had that many unspent outputs '
                           'in any provider answer' % (_short(nu), name, callrec['m']),
